@@ -42,8 +42,11 @@ var (
 	hashG      bc.Hash
 	cpX        [2]*state.Checkpoint // two versions (Unjustified, Justified)
 	cpY        [2]*state.Checkpoint
-	probeHash  []bc.Hash
-	probeHt    = []uint64{2}
+	// the main-chain family: X-X2-X3, Y-Y2-Y3 and the partial fork X-W2-W3 (heights 2, 3, 4)
+	blkX2h, blkX3h, blkY2h, blkY3h, blkW2h, blkW3h *types.Block
+	names                                          = map[bc.Hash]string{}
+	probeHash                                      []bc.Hash
+	probeHt                                        = []uint64{2, 3, 4}
 )
 
 func cloneBlock(b *types.Block) *types.Block {
@@ -70,9 +73,9 @@ func setup() {
 	if blkX2.Hash() != hashX {
 		ev.Fatal("a header sup link changes the block hash: the re-issued block of the plan cannot be built")
 	}
-	y2 := cloneBlock(blkY)
-	y2.SupLinks.AddSupLink(0, hashG, labnet.VoteSig(net.Keys[2], hashG, hashY), 2)
-	hdrY2 = &y2.BlockHeader
+	yl := cloneBlock(blkY)
+	yl.SupLinks.AddSupLink(0, hashG, labnet.VoteSig(net.Keys[2], hashG, hashY), 2)
+	hdrY2 = &yl.BlockHeader
 	mk := func(b *labnet.B, st state.CheckpointStatus) *state.Checkpoint {
 		c := *b.CP
 		c.Status = st
@@ -82,7 +85,21 @@ func setup() {
 	}
 	cpX = [2]*state.Checkpoint{mk(x, state.Unjustified), mk(x, state.Justified)}
 	cpY = [2]*state.Checkpoint{mk(y, state.Unjustified), mk(y, state.Justified)}
+	x2 := net.NewBlock(x, labnet.BlockOpt{Tag: 0})
+	x3 := net.NewBlock(x2, labnet.BlockOpt{Tag: 0})
+	y2 := net.NewBlock(y, labnet.BlockOpt{Tag: 0})
+	y3 := net.NewBlock(y2, labnet.BlockOpt{Tag: 0})
+	w2 := net.NewBlock(x, labnet.BlockOpt{Tag: 1})
+	w3 := net.NewBlock(w2, labnet.BlockOpt{Tag: 0})
+	blkX2h, blkX3h, blkY2h, blkY3h, blkW2h, blkW3h = x2.Block, x3.Block, y2.Block, y3.Block, w2.Block, w3.Block
 	probeHash = []bc.Hash{hashX, hashY}
+	names[hashX], names[hashY] = "X", "Y"
+	for n, b := range map[string]*types.Block{"X2": blkX2h, "X3": blkX3h, "Y2": blkY2h, "Y3": blkY3h, "W2": blkW2h, "W3": blkW3h} {
+		names[b.Hash()] = n
+	}
+	for _, b := range []*types.Block{blkX2h, blkX3h, blkY2h, blkY3h, blkW2h, blkW3h} {
+		probeHash = append(probeHash, b.Hash())
+	}
 }
 
 // ---------------------------------------------------------------- alphabet
@@ -94,18 +111,20 @@ type event struct {
 }
 
 func name(h bc.Hash) string {
-	switch h {
-	case hashX:
-		return "X"
-	case hashY:
-		return "Y"
+	if n, ok := names[h]; ok {
+		return n
 	}
 	return h.String()[:8]
 }
 
-func chainStatus(b *types.Block) func(s *database.Store) error {
+// chainStatus saves best = the last block and attaches all the given blocks' headers to the main chain in ONE call.
+func chainStatus(bs ...*types.Block) func(s *database.Store) error {
 	return func(s *database.Store) error {
-		return s.SaveChainStatus(&b.BlockHeader, []*types.BlockHeader{&b.BlockHeader}, state.NewUtxoViewpoint(), state.NewContractViewpoint(), 0, &hashG)
+		var hs []*types.BlockHeader
+		for _, b := range bs {
+			hs = append(hs, &b.BlockHeader)
+		}
+		return s.SaveChainStatus(hs[len(hs)-1], hs, state.NewUtxoViewpoint(), state.NewContractViewpoint(), 0, &hashG)
 	}
 }
 
@@ -148,6 +167,64 @@ func buildEvents() []event {
 		{"GetCheckpointsByHeight", "GetCheckpointsByHeight(2)", get(func(s *database.Store) error { _, err := s.GetCheckpointsByHeight(2); return err })},
 		{"HeaderReadModifyWrite", "GetBlockHeader(X) -> AddSupLink(validator 1) -> SaveBlockHeader", rmw(hashX, 1)},
 		{"HeaderReadModifyWrite", "GetBlockHeader(Y) -> AddSupLink(validator 3) -> SaveBlockHeader", rmw(hashY, 3)},
+		// 23.. : the main-chain family (several headers attached by one SaveChainStatus)
+		{"SaveChainStatus", "SaveChainStatus(best X3, main chain [X,X2,X3])", chainStatus(blkX, blkX2h, blkX3h)},
+		{"SaveChainStatus", "SaveChainStatus(best Y3, main chain [Y,Y2,Y3])", chainStatus(blkY, blkY2h, blkY3h)},
+		{"SaveChainStatus", "SaveChainStatus(best W3, main chain [W2,W3]) (fork above X)", chainStatus(blkW2h, blkW3h)},
+		{"SaveChainStatus", "SaveChainStatus(best Y2, main chain [Y,Y2]) (shorter)", chainStatus(blkY, blkY2h)},
+		{"GetMainChainHash", "GetMainChainHash(3)", get(func(s *database.Store) error { _, err := s.GetMainChainHash(3); return err })},
+		{"GetMainChainHash", "GetMainChainHash(4)", get(func(s *database.Store) error { _, err := s.GetMainChainHash(4); return err })},
+		{"GetBlockHashesByHeight", "GetBlockHashesByHeight(3)", get(func(s *database.Store) error { _, err := s.GetBlockHashesByHeight(3); return err })},
+		{"GetBlockHashesByHeight", "GetBlockHashesByHeight(4)", get(func(s *database.Store) error { _, err := s.GetBlockHashesByHeight(4); return err })},
+		{"SaveBlock", "SaveBlock(X2)", func(s *database.Store) error { return s.SaveBlock(blkX2h) }},
+		{"SaveBlock", "SaveBlock(Y2)", func(s *database.Store) error { return s.SaveBlock(blkY2h) }},
+		{"SaveBlock", "SaveBlock(X3)", func(s *database.Store) error { return s.SaveBlock(blkX3h) }},
+	}
+}
+
+// A profile is one search: a sub-alphabet, the getters judged in its states and its depth.
+type profile struct {
+	Name    string
+	Events  []uint8
+	Getters []int
+	Depth   int
+}
+
+func seq(a, b int) []uint8 {
+	var out []uint8
+	for i := a; i < b; i++ {
+		out = append(out, uint8(i))
+	}
+	return out
+}
+
+func buildProfiles(thorough bool) []profile {
+	pick := func(q, t int) int {
+		if thorough {
+			return t
+		}
+		return q
+	}
+	all := make([]int, len(getters))
+	for i := range all {
+		all[i] = i
+	}
+	var mainGetters []int
+	for i, g := range getters {
+		switch getterKind(g.Name) {
+		case "GetMainChainHash", "GetBlockHashesByHeight", "GetStoreStatus":
+			mainGetters = append(mainGetters, i)
+		}
+		if strings.HasSuffix(g.Name, "(X2)") || strings.HasSuffix(g.Name, "(Y2)") {
+			mainGetters = append(mainGetters, i)
+		}
+	}
+	// main-chain family: single-header X / Y (10, 11), reads at height 2 (16, 17), and events 23..33
+	mainEvents := append([]uint8{10, 11, 16, 17}, seq(23, len(events))...)
+	return []profile{
+		{"blocks-headers-checkpoints", seq(0, 23), all[:16], pick(5, 7)},
+		{"main-chain", mainEvents, mainGetters, pick(6, 8)},
+		{"all-events", seq(0, len(events)), all, pick(3, 4)},
 	}
 }
 
@@ -251,9 +328,9 @@ func buildGetters() []getter {
 			}},
 		)
 	}
-	gs = append(gs,
-		getter{"GetBlockHashesByHeight(2)", func(s *database.Store) string {
-			hs, err := s.GetBlockHashesByHeight(2)
+	hashesAt := func(height uint64) getter {
+		return getter{fmt.Sprintf("GetBlockHashesByHeight(%d)", height), func(s *database.Store) string {
+			hs, err := s.GetBlockHashesByHeight(height)
 			if err != nil {
 				return errStr(err)
 			}
@@ -262,14 +339,18 @@ func buildGetters() []getter {
 				out = append(out, name(*h))
 			}
 			return "[" + strings.Join(out, ",") + "]"
-		}},
-		getter{"GetMainChainHash(2)", func(s *database.Store) string {
-			h, err := s.GetMainChainHash(2)
+		}}
+	}
+	mainAt := func(height uint64) getter {
+		return getter{fmt.Sprintf("GetMainChainHash(%d)", height), func(s *database.Store) string {
+			h, err := s.GetMainChainHash(height)
 			if err != nil {
 				return errStr(err)
 			}
 			return name(*h)
-		}},
+		}}
+	}
+	gs = append(gs, hashesAt(2), mainAt(2),
 		getter{"GetCheckpointsByHeight(2)", func(s *database.Store) string {
 			cs, err := s.GetCheckpointsByHeight(2)
 			if err != nil {
@@ -285,6 +366,29 @@ func buildGetters() []getter {
 			return fmt.Sprintf("status(%d,%s)", st.Height, name(*st.Hash))
 		}},
 	)
+	// 16.. : observations of the main-chain family
+	gs = append(gs, hashesAt(3), hashesAt(4), mainAt(3), mainAt(4))
+	for _, b := range []*types.Block{blkX2h, blkY2h} {
+		h := b.Hash()
+		gs = append(gs,
+			getter{"GetBlockHeader(" + name(h) + ")", func(s *database.Store) string {
+				hd, err := s.GetBlockHeader(&h)
+				if err != nil {
+					return errStr(err)
+				}
+				return renderHeader(hd)
+			}},
+			getter{"GetBlock(" + name(h) + ")", func(s *database.Store) string {
+				b, err := s.GetBlock(&h)
+				if err != nil {
+					return errStr(err)
+				}
+				raw, _ := b.MarshalText()
+				sum := sha256.Sum256(raw)
+				return fmt.Sprintf("block(ser=%s,txs=%d) %s", hex.EncodeToString(sum[:4]), len(b.Transactions), renderHeader(&b.BlockHeader))
+			}},
+		)
+	}
 	return gs
 }
 
@@ -406,7 +510,7 @@ type viol struct {
 }
 
 // judge evaluates every getter in the state reached by h, each on its own replica.
-func judge(h []uint8) (vs []viol, comparisons int, outcomes map[string]int) {
+func judge(h []uint8, gsel []int) (vs []viol, comparisons int, outcomes map[string]int) {
 	outcomes = map[string]int{}
 	if len(h) > 0 {
 		if in, p := replay(h[:len(h)-1]); p == "" {
@@ -420,7 +524,8 @@ func judge(h []uint8) (vs []viol, comparisons int, outcomes map[string]int) {
 			}()
 		}
 	}
-	for _, g := range getters {
+	for _, gi := range gsel {
+		g := getters[gi]
 		in, p := replay(h)
 		if p != "" {
 			vs = append(vs, viol{"store-panics-" + events[h[len(h)-1]].Kind, "panic while replaying: " + p, h})
@@ -503,98 +608,107 @@ func main() {
 		wg.Wait()
 	}
 
-	seen := map[string]bool{}
 	classes := map[string]int{}
-	frontier := [][]uint8{{}}
 	states, transitions, comparisons := 0, 0, 0
-	perDepth := []int{}
-	exhausted := false
 	maxCacheEntries, staleStates := 0, 0
+	perProfile := map[string]interface{}{}
 
-	// judgeAll evaluates the oracle in the new states (in a fixed order) and reports.
-	judgeAll := func(hs [][]uint8) {
-		type res struct {
-			vs  []viol
-			n   int
-			out map[string]int
-		}
-		rs := make([]res, len(hs))
-		parallel(len(hs), func(i int) {
-			v, n, o := judge(hs[i])
-			rs[i] = res{v, n, o}
-		})
-		for _, r := range rs {
-			comparisons += r.n
-			for k, n := range r.out {
-				classes[k] += n
-			}
-			if len(r.vs) > 0 {
-				staleStates++
-			}
-			for _, v := range r.vs {
-				run.Violation(v.Key, fmt.Sprintf("history %v: %s", describe(v.H), v.What), map[string]interface{}{"history": describe(v.H), "event_indices": v.H, "what": v.What})
-			}
-		}
-	}
+	for _, pf := range buildProfiles(run.Thorough()) {
+		pf := pf
+		seen := map[string]bool{}
+		frontier := [][]uint8{{}}
+		perDepth := []int{}
+		pStates, pTransitions := 0, 0
 
-	// depth 0
-	{
-		in, _ := replay(nil)
-		d, _ := in.digest()
-		seen[d] = true
-		states = 1
-		perDepth = append(perDepth, 1)
-		judgeAll([][]uint8{{}})
-	}
-	for depth := 1; depth <= maxDepth; depth++ {
-		if len(frontier) == 0 {
-			exhausted = true
-			break
+		// judgeAll evaluates the oracle in the new states (in a fixed order) and reports.
+		judgeAll := func(hs [][]uint8) {
+			type res struct {
+				vs  []viol
+				n   int
+				out map[string]int
+			}
+			rs := make([]res, len(hs))
+			parallel(len(hs), func(i int) {
+				v, n, o := judge(hs[i], pf.Getters)
+				rs[i] = res{v, n, o}
+			})
+			for _, r := range rs {
+				comparisons += r.n
+				for k, n := range r.out {
+					classes[k] += n
+				}
+				if len(r.vs) > 0 {
+					staleStates++
+				}
+				for _, v := range r.vs {
+					run.Violation(v.Key, fmt.Sprintf("history %v: %s", describe(v.H), v.What), map[string]interface{}{"profile": pf.Name, "history": describe(v.H), "event_indices": v.H, "what": v.What})
+				}
+			}
 		}
-		if run.OutOfTime() {
-			run.Capped(fmt.Sprintf("time budget reached before depth %d (all shallower depths complete)", depth))
-			break
-		}
-		n := len(frontier) * len(events)
-		digests := make([]string, n)
-		entries := make([]uint8, n)
-		parallel(n, func(i int) {
-			h := append(append(make([]uint8, 0, depth), frontier[i/len(events)]...), uint8(i%len(events)))
-			in, p := replay(h)
-			if p != "" {
-				digests[i] = "panic:" + p
-				return
-			}
-			d, snap := in.digest()
-			digests[i] = d
-			entries[i] = uint8(len(snap))
-		})
-		transitions += n
-		var fresh [][]uint8
-		for i, d := range digests {
-			h := append(append(make([]uint8, 0, depth), frontier[i/len(events)]...), uint8(i%len(events)))
-			if strings.HasPrefix(d, "panic:") {
-				run.Violation("store-panics-"+events[h[len(h)-1]].Kind, fmt.Sprintf("history %v: %s", describe(h), d), map[string]interface{}{"history": describe(h)})
-				continue
-			}
-			if seen[d] {
-				continue
-			}
+
+		// depth 0
+		{
+			in, _ := replay(nil)
+			d, _ := in.digest()
 			seen[d] = true
-			fresh = append(fresh, h)
-			if int(entries[i]) > maxCacheEntries {
-				maxCacheEntries = int(entries[i])
-			}
-			states++
-			if states%4001 == 2 || states == 50 {
-				run.Sample(describe(h))
-			}
+			pStates = 1
+			perDepth = append(perDepth, 1)
+			judgeAll([][]uint8{{}})
 		}
-		perDepth = append(perDepth, len(fresh))
-		judgeAll(fresh)
-		frontier = fresh
+		ne := len(pf.Events)
+		for depth := 1; depth <= pf.Depth; depth++ {
+			if len(frontier) == 0 {
+				break
+			}
+			if run.OutOfTime() {
+				run.Capped(fmt.Sprintf("%s: time budget reached before depth %d (all shallower depths complete)", pf.Name, depth))
+				break
+			}
+			n := len(frontier) * ne
+			hist := func(i int) []uint8 {
+				return append(append(make([]uint8, 0, depth), frontier[i/ne]...), pf.Events[i%ne])
+			}
+			digests := make([]string, n)
+			entries := make([]uint8, n)
+			parallel(n, func(i int) {
+				in, p := replay(hist(i))
+				if p != "" {
+					digests[i] = "panic:" + p
+					return
+				}
+				d, snap := in.digest()
+				digests[i] = d
+				entries[i] = uint8(len(snap))
+			})
+			pTransitions += n
+			var fresh [][]uint8
+			for i, d := range digests {
+				h := hist(i)
+				if strings.HasPrefix(d, "panic:") {
+					run.Violation("store-panics-"+events[h[len(h)-1]].Kind, fmt.Sprintf("history %v: %s", describe(h), d), map[string]interface{}{"history": describe(h)})
+					continue
+				}
+				if seen[d] {
+					continue
+				}
+				seen[d] = true
+				fresh = append(fresh, h)
+				if int(entries[i]) > maxCacheEntries {
+					maxCacheEntries = int(entries[i])
+				}
+				pStates++
+				if pStates%4001 == 2 || pStates == 50 {
+					run.Sample(map[string]interface{}{"profile": pf.Name, "history": describe(h)})
+				}
+			}
+			perDepth = append(perDepth, len(fresh))
+			judgeAll(fresh)
+			frontier = fresh
+		}
+		states += pStates
+		transitions += pTransitions
+		perProfile[pf.Name] = map[string]interface{}{"events": ne, "getters_judged_per_state": len(pf.Getters), "max_depth": pf.Depth, "states": pStates, "histories_executed": pTransitions, "new_states_per_depth": perDepth}
 	}
-	_ = exhausted
 
 	run.Set("result_classes", classes)
 	for k := range classes {
@@ -605,11 +719,11 @@ func main() {
 	run.Set("traces_validated_against_impl", comparisons)
 	run.Set("max_depth", maxDepth)
 	run.Set("events_in_alphabet", len(events))
-	run.Set("getters_judged_per_state", len(getters))
-	run.Set("new_states_per_depth", perDepth)
+	run.Set("getters", len(getters))
+	run.Set("profiles", perProfile)
 	run.Set("max_cache_entries_in_a_state", maxCacheEntries)
 	run.Set("states_with_a_violation", staleStates)
-	run.Set("rule", "events: SaveBlock of X / X re-issued with a header sup link (same hash) / sibling Y, SaveBlockHeader of X, X+link, Y+link, SaveCheckpoints (two versions of each of the two checkpoints, one two-element batch), SaveChainStatus with the main chain at height 2 switching between X and Y, the cache-filling reads GetBlockHeader, GetBlock, GetBlockHashesByHeight, GetMainChainHash, GetCheckpoint, GetCheckpointsByHeight, and GetBlockHeader->AddSupLink->SaveBlockHeader. A state = (database content, content of the five LRU caches as seen through the export hook); every history is replayed on a brand-new Store; transitions = histories executed; in every distinct state each of the getters is called twice on its own replica and once on a fresh NewStore over the same database (2 comparisons per getter and state).")
+	run.Set("rule", "events: SaveBlock of X / X re-issued with a header sup link (same hash) / sibling Y, SaveBlockHeader of X, X+link, Y+link, SaveCheckpoints (two versions of each of the two checkpoints, one two-element batch), SaveChainStatus with the main chain at height 2 switching between X and Y and (main-chain profile) SaveChainStatus attaching two or three headers in one call (chains X-X2-X3, Y-Y2-Y3, fork X-W2-W3 over heights 2..4, wholesale, partial and shorter switches) with GetMainChainHash / GetBlockHashesByHeight of every one of those heights and SaveBlock of X2, Y2, X3, the cache-filling reads GetBlockHeader, GetBlock, GetBlockHashesByHeight, GetMainChainHash, GetCheckpoint, GetCheckpointsByHeight, and GetBlockHeader->AddSupLink->SaveBlockHeader. Three searches (profiles, see coverage.profiles): the 23 block/header/checkpoint events, the 15 main-chain events, and all 34 events together to a smaller depth. A state = (database content, content of the five LRU caches as seen through the export hook); every history is replayed on a brand-new Store; transitions = histories executed; in every distinct state each of the getters is called twice on its own replica and once on a fresh NewStore over the same database (2 comparisons per getter and state).")
 	run.Assume("the fresh database.NewStore over the same database is the reference (reads with empty caches); single-threaded use of the Store (singleflight and LRU eviction are not exercised: at most a handful of entries per cache)")
 	run.Assume("callers do not modify returned objects except through the node's own header read-modify-write pattern")
 	run.Finish()
